@@ -361,7 +361,7 @@ Qed.
    raw sample and last raw value in the documented format and are time-ordered; reading them
    therefore yields the stitched values *)
 Lemma level2_structure nc1 nc2 data l1 l2 :
-  valid_counter res1 data -> (1 <= length l1 / nc2)%nat ->
+  valid_counter res1 data ->
   level1 res1 nc1 data = Some l1 -> level2 res2 nc2 l1 = Some l2 ->
   exists batches parts,
     l1 = map (float_batch cw res1) batches /\ concat batches = keep_nonnan data /\
@@ -371,11 +371,11 @@ Lemma level2_structure nc1 nc2 data l1 l2 :
     read_counter l2 = Some (expect None (map (q2_of res1 res2) parts)) /\
     Forall counter_batch batches /\ seps cw res1 batches.
 Proof.
-  intros Hv Hbs E1 E2.
+  intros Hv E1 E2.
   destruct (level1_structure res1 res1_pos nc1 data Hv) as (batches & E1' & Hcat & Hcb & Hsep).
   rewrite E1 in E1'. injection E1' as ->.
   unfold level2, downsample_aggr in E2.
-  destruct (loop_parts _ Hbs _ _ _ E2 Hcb Hsep) as (parts & Hcp & Hne & Hpres).
+  destruct (loop_parts _ (Nat.le_max_r (length (map (float_batch cw res1) batches) / nc2) 1) _ _ _ E2 Hcb Hsep) as (parts & Hcp & Hne & Hpres).
   exists batches, parts. split; [reflexivity|]. split; [exact Hcat|]. split; [exact Hcp|]. split; [exact Hne|].
   split; [exact Hpres|].
   assert (Hch : q_chain None (map (q2_of res1 res2) parts)).
